@@ -590,6 +590,16 @@ def rule_pow(ctx):
                 and any(isinstance(x, ast.Name) and x.id in f.params
                         for x in ast.walk(n.left))
                 and not isinstance(n.left, ast.Constant)]
+        # math.pow(x, y) is the same operation with other failure modes
+        mpows = [n for n in own_nodes(f) if isinstance(n, ast.Call) and
+                 isinstance(n.func, (ast.Name, ast.Attribute)) and
+                 ctx.cg.resolve_name_expr(f, n.func) == ('ext', 'math.pow')
+                 and len(n.args) == 2 and any(
+                     isinstance(x, ast.Name) and x.id in f.params
+                     for x in ast.walk(n.args[0]))]
+        for pw in mpows:
+            pw.left = pw.args[0]
+        pows = pows + mpows
         if not pows:
             continue
         for pw in pows:
@@ -622,14 +632,20 @@ def rule_pow(ctx):
                 isinstance(n, ast.Compare) and norm_src(n.left) == norm_src(
                     pw.left) and isinstance(n.ops[0], (ast.Lt, ast.LtE))
                 for n in own_nodes(f))
-            if not cplx and not neg_guard:
+            if isinstance(pw, ast.Call):
+                if not neg_guard and not caught & {'ValueError', 'Exception'}:
+                    problems.append(
+                        'math.pow raises ValueError for a negative base with '
+                        'a fractional exponent, which safe_eval shows as '
+                        '#VALUE! - an out-of-domain number is #NUM!')
+            elif not cplx and not neg_guard:
                 problems.append('a negative base with a fractional exponent '
                                 'yields a complex number, which no funnel '
                                 'converts')
             if problems:
                 rr.fail('%s::OPERATORS[%s]::unguarded float power' % (
                     OPS_REL, key),
-                    'OPERATORS[%r] applies Python `**` to float operands: %s'
+                    'OPERATORS[%r] applies a float power to its operands: %s'
                     % (key, '; '.join(problems)), file=f.module.rel,
                     function=f.qualname, line=pw.lineno)
             else:
